@@ -8,75 +8,7 @@
 //   P id inb valid goal gdist   path states in order          ACC a b   accepted motions among consecutive path states
 //   SEG recheck maxinv          per consecutive pair           END
 #include "planning_common.h"
-#include <ompl/geometric/planners/rrt/RRT.h>
-#include <ompl/geometric/planners/rrt/RRTConnect.h>
-#include <ompl/geometric/planners/rrt/pRRT.h>
-#include <ompl/geometric/planners/rrt/LazyRRT.h>
-#include <ompl/geometric/planners/rrt/TRRT.h>
-#include <ompl/geometric/planners/rrt/BiTRRT.h>
-#include <ompl/geometric/planners/rrt/RRTstar.h>
-#include <ompl/geometric/planners/rrt/InformedRRTstar.h>
-#include <ompl/geometric/planners/rrt/SORRTstar.h>
-#include <ompl/geometric/planners/rrt/RRTsharp.h>
-#include <ompl/geometric/planners/rrt/RRTXstatic.h>
-#include <ompl/geometric/planners/rrt/LBTRRT.h>
-#include <ompl/geometric/planners/rrt/LazyLBTRRT.h>
-#include <ompl/geometric/planners/est/EST.h>
-#include <ompl/geometric/planners/est/BiEST.h>
-#include <ompl/geometric/planners/est/ProjEST.h>
-#include <ompl/geometric/planners/kpiece/KPIECE1.h>
-#include <ompl/geometric/planners/kpiece/BKPIECE1.h>
-#include <ompl/geometric/planners/kpiece/LBKPIECE1.h>
-#include <ompl/geometric/planners/sbl/SBL.h>
-#include <ompl/geometric/planners/sbl/pSBL.h>
-#include <ompl/geometric/planners/pdst/PDST.h>
-#include <ompl/geometric/planners/stride/STRIDE.h>
-#include <ompl/geometric/planners/fmt/FMT.h>
-#include <ompl/geometric/planners/fmt/BFMT.h>
-#include <ompl/geometric/planners/prm/PRM.h>
-#include <ompl/geometric/planners/prm/PRMstar.h>
-#include <ompl/geometric/planners/prm/LazyPRM.h>
-#include <ompl/geometric/planners/prm/LazyPRMstar.h>
-#include <ompl/geometric/planners/prm/SPARS.h>
-#include <ompl/geometric/planners/prm/SPARStwo.h>
-#include <ompl/geometric/planners/informedtrees/BITstar.h>
-#include <ompl/geometric/planners/informedtrees/ABITstar.h>
-#include <ompl/geometric/planners/informedtrees/AITstar.h>
-#include <ompl/geometric/planners/informedtrees/EITstar.h>
-#include <ompl/geometric/planners/informedtrees/EIRMstar.h>
-#include <ompl/geometric/planners/sst/SST.h>
-#include <ompl/geometric/planners/rlrt/RLRT.h>
-#include <ompl/geometric/planners/rlrt/BiRLRT.h>
-#include <ompl/geometric/planners/cforest/CForest.h>
-#include <ompl/geometric/planners/AnytimePathShortening.h>
-#include <ompl/multilevel/planners/qrrt/QRRT.h>
-#include <ompl/multilevel/planners/qrrt/QRRTStar.h>
-#include <ompl/multilevel/planners/qmp/QMP.h>
-#include <ompl/multilevel/planners/qmp/QMPStar.h>
-#include <ompl/base/objectives/PathLengthOptimizationObjective.h>
-
-static ob::PlannerPtr make_planner(const std::string &n, const ob::SpaceInformationPtr &si)
-{
-#define P(name, T) if (n == name) return std::make_shared<T>(si);
-    P("RRT", og::RRT) P("RRTConnect", og::RRTConnect) P("LazyRRT", og::LazyRRT) P("TRRT", og::TRRT) P("BiTRRT", og::BiTRRT)
-    P("RRTstar", og::RRTstar) P("InformedRRTstar", og::InformedRRTstar) P("SORRTstar", og::SORRTstar) P("RRTsharp", og::RRTsharp)
-    P("RRTXstatic", og::RRTXstatic) P("LBTRRT", og::LBTRRT) P("LazyLBTRRT", og::LazyLBTRRT) P("EST", og::EST) P("BiEST", og::BiEST)
-    P("ProjEST", og::ProjEST) P("KPIECE1", og::KPIECE1) P("BKPIECE1", og::BKPIECE1) P("LBKPIECE1", og::LBKPIECE1) P("SBL", og::SBL)
-    P("PDST", og::PDST) P("STRIDE", og::STRIDE) P("FMT", og::FMT) P("BFMT", og::BFMT) P("PRM", og::PRM) P("PRMstar", og::PRMstar)
-    P("LazyPRM", og::LazyPRM) P("LazyPRMstar", og::LazyPRMstar) P("SPARS", og::SPARS) P("SPARStwo", og::SPARStwo) P("BITstar", og::BITstar)
-    P("ABITstar", og::ABITstar) P("AITstar", og::AITstar) P("EITstar", og::EITstar) P("EIRMstar", og::EIRMstar) P("SST", og::SST)
-    P("RLRT", og::RLRT) P("BiRLRT", og::BiRLRT) P("AnytimePathShortening", og::AnytimePathShortening)
-    P("QRRT", ompl::multilevel::QRRT) P("QRRTStar", ompl::multilevel::QRRTStar) P("QMP", ompl::multilevel::QMP) P("QMPStar", ompl::multilevel::QMPStar)
-#undef P
-    if (n == "RRTi") { auto p = std::make_shared<og::RRT>(si, true); return p; }
-    if (n == "RRTConnecti") { auto p = std::make_shared<og::RRTConnect>(si, true); return p; }
-    if (n == "pRRT") { auto p = std::make_shared<og::pRRT>(si); p->setThreadCount(2); return p; }
-    if (n == "pSBL") { auto p = std::make_shared<og::pSBL>(si); p->setThreadCount(2); return p; }
-    if (n == "CForest") { auto p = std::make_shared<og::CForest>(si); p->setNumThreads(2); return p; }
-    if (n.rfind("EITstar", 0) == 0 && n.size() > 7)   // EITstar<k>: non-default initial number of sparse collision checks
-    { auto p = std::make_shared<og::EITstar>(si); p->setInitialNumberOfSparseCollisionChecks(std::atoi(n.c_str() + 7)); return p; }
-    throw std::runtime_error("unknown planner " + n);
-}
+#include "planners_all.h"
 
 int main(int argc, char **argv)
 {
